@@ -28,6 +28,26 @@ Family `coupled` (one linear ImplicitComponent  M y - N x - c = 0  whose residua
 non-zero blocks are declared as partials - followed by an explicit component; control shape `none` = uncoupled):
     values and totals compared twin-on == twin-off == exact M^-1 N.
 
+Family `arrow` (omv/gen/c24_arrow.py): the TOTAL jacobian consists of diagonal blocks, dense rows and dense columns that
+are produced by DIFFERENT components (diag: y = a x^2 + b x + c s, mul: z = sin(x) s + p x, row: g = sum w (u-t)^2 over
+design variables and/or intermediate outputs, elementwise chains, a dead end, a component fed by a non-design source;
+optional sub-groups with their own linear solver), so that the individual colours of a driver total coloring have
+different relevance footprints while sharing source design variables.  driver.declare_coloring() (dynamic; direct /
+substitution method; num_full_jacs 1..3) or use_fixed_coloring(Coloring object / file computed by a donor problem),
+setup(mode in auto/fwd/rev) - under `auto` an arrowhead pattern yields a BIDIRECTIONAL coloring (fwd and rev solves in
+the same compute_totals, primary mode fwd or rev by of-size vs wrt-size); design-variable / constraint indices,
+cache_linear_solution, root solver {runonce, lnbgs, lnbj, krylov, direct}.  Call sequence per twin:
+    run_model; prob.compute_totals() (computes the dynamic coloring); driver._compute_totals() (coloured, cached
+    _TotalJacInfo); prob.compute_totals(of=intermediate/dead-end outputs, wrt=rotated design variables) (uncoloured,
+    other relevance sets); new point + run_model; driver._compute_totals() again
+  every result compared twin-on == twin-off == closed-form chain rule (NumPy).  Every 4th case is a convex optimisation
+  variant: run_driver (SLSQP) with the coloring; the disabled twin's final design must be THE optimum (KKT conditions on
+  the closed-form model), the enabled twin must end at the same design, its outputs must be the model values there and
+  its totals there must equal the closed form.
+  The monitor wraps _TotalJacInfo.compute_totals / *_input_setter and records, per linear solve, the kind of coloring
+  in use (uncolored / colored-fwd / colored-rev / bidirectional) and the direction of the solve, so that the evidence
+  counts bidirectional colorings actually used, their fwd/rev solves and the systems relevance skipped DURING them.
+
 Besides values, a solver that reports non-convergence ONLY in the enabled twin is a violation (observable: failure
 message, wasted iterations, AnalysisError under err_on_non_converge=True); such failures are classified by the seed that
 was active (`dead-seed`: the seed has no counterpart in the jacobian being computed; `live-seed:mixed-stack` /
@@ -59,11 +79,22 @@ RULE = ('totals family: two random G specs merged into one model (disjoint cones
         'declared desvars/responses with indices/alias/linear/pdc/cache_linear_solution + Driver._compute_totals}; '
         'opt family: random strictly convex QP through linear component chain (optional linear cycle), pre/post '
         'components, SLSQP; coupled family: linear implicit component with random block coupling pattern + explicit '
-        'follower x root/sub-group linear solver x mode.  distinct = fingerprint(model features, solver stack, cell, plan shape); non-trivial = '
+        'follower x root/sub-group linear solver x mode; arrow family: total jacobian = diagonal blocks + dense rows + '
+        'dense columns spread over 2-7 components (shape arrow/diagcol/diagrow/block/random) x total coloring '
+        '{dynamic, fixed object, fixed file} x {direct, substitution} x setup mode {auto,fwd,rev} x root linear solver x '
+        'sub-groups x indices x cache_linear_solution, call sequence problem totals / driver totals / explicit '
+        'uncoloured totals / second point, every 4th case a convex SLSQP run.  distinct = fingerprint(model features, solver stack, cell, plan shape); non-trivial = '
         'relevance answered "irrelevant" at least once in the enabled twin (something was really pruned) and all '
         'solvers reported convergence')
-MIN_JUDGED = {'quick': 60, 'thorough': 1500}
-REQUIRED_COUNTERS = ['obs:coupled-twins', 'cell:coupled-shape=none', 'cell:coupled-shape=chain', 'obs:systems-pruned', 'obs:vars-pruned', 'obs:linearize-calls-saved', 'obs:twin-off-verified',
+MIN_JUDGED = {'quick': 250, 'thorough': 2500}
+REQUIRED_COUNTERS = ['obs:arrow-twins', 'obs:arrow-computes:bidirectional', 'obs:arrow-solves:bidirectional:fwd',
+                     'obs:arrow-solves:bidirectional:rev', 'obs:arrow-systems-pruned:bidirectional:rev-solve',
+                     'obs:arrow-systems-pruned:bidirectional:fwd-solve', 'obs:bidir-primary=fwd',
+                     'obs:arrow-computes:colored-fwd', 'obs:arrow-computes:colored-rev',
+                     'obs:arrow-systems-pruned:colored-fwd:fwd-solve', 'obs:arrow-systems-pruned:colored-rev:rev-solve',
+                     'obs:arrow-fixed-object', 'obs:arrow-fixed-file', 'obs:arrow-opt-twins',
+                     'cell:arrow-direct', 'cell:arrow-substitution',
+                     'obs:coupled-twins', 'cell:coupled-shape=none', 'cell:coupled-shape=chain', 'obs:systems-pruned', 'obs:vars-pruned', 'obs:linearize-calls-saved', 'obs:twin-off-verified',
                      'obs:totals-on-vs-off', 'obs:totals-vs-reference', 'obs:values-on-vs-off',
                      'obs:driver-totals', 'obs:lincon-totals', 'obs:declared-totals', 'obs:explicit-totals',
                      'obs:disjoint-cones', 'obs:cyclic-model', 'obs:zero-blocks',
@@ -77,6 +108,11 @@ ASSUMPTIONS = ['a solver failure reported only by the relevance-enabled twin cou
                'R (omv/ref/flatmodel.py) is exact (re-validated by complex step per case); cases where the DISABLED '
                'twin disagrees with R are other properties\' territory (C01) and are not judged here',
                'cases where a solver reports non-convergence in the DISABLED twin, or cond(dF/du) >= 1e6, are not judged',
+               'arrow family: solver failure reports raised while a dynamic total coloring computes its sparsity are '
+               'ignored in both twins (OpenMDAO re-randomises the sub-jacobians at every matrix-vector product there, '
+               'an iterative solver cannot converge by construction); optimisation variant: the disabled twin is the '
+               'baseline only if it reports success and its final design satisfies the KKT conditions of the '
+               'closed-form model to 1e-5; a different exit flag at the same final design is not a result difference',
                'optimizer twins are judged only if the disabled twin reports success and reaches the exact QP optimum '
                'to 5e-7 (validated baseline); no MPI (parallel_deriv_color is declared but has no parallel effect)']
 SHARD_TIMEOUT = {'quick': 1500, 'thorough': 5400}
@@ -1193,6 +1229,11 @@ def _case_coupled(case, acc):
                 w = what.split('|')
                 if fam.startswith('uncoupled'):
                     key = '%s:solver-fails-only-with-relevance:uncoupled-implicit:%s' % (w[1], w[2])
+                elif w[1] == 'dead-seed':
+                    # every failing seed has no counterpart in this jacobian (e.g. a `random` pattern in which the
+                    # seeded output does not depend on the design variable at all): the dead-seed mechanism, not
+                    # the coupling of the outputs
+                    key = 'dead-seed:solver-fails-only-with-relevance:coupled-implicit:%s' % w[2]
                 else:
                     key = '%s:solver-fails-only-with-relevance:%s' % (fam, w[2])
             else:
